@@ -318,10 +318,10 @@ func runC11(payload string) string {
 		outcome = "fail"
 	}
 	return fmt.Sprintf("%s => %s ### nt=%d kind=%s sols=%s classes=%s fv=%s outcome=%s answers=%s",
-		left, right, nt, kind, bucket(len(sols)), bucket(len(witnessClasses)), bucket(nfv), outcome, bucket(len(answers)))
+		left, right, nt, kind, bucket_c11(len(sols)), bucket_c11(len(witnessClasses)), bucket_c11(nfv), outcome, bucket_c11(len(answers)))
 }
 
-func bucket(n int) string {
+func bucket_c11(n int) string {
 	switch {
 	case n <= 3:
 		return strconv.Itoa(n)
@@ -810,7 +810,7 @@ func runC11Variant(payload string) string {
 		if len(n1) >= 2 && len(n2) >= 1 {
 			nt = 1
 		}
-		return fmt.Sprintf("%v ### nt=%d op=variant result=%v vars1=%s vars2=%s", r, nt, r, bucket(len(n1)), bucket(len(n2)))
+		return fmt.Sprintf("%v ### nt=%d op=variant result=%v vars1=%s vars2=%s", r, nt, r, bucket_c11(len(n1)), bucket_c11(len(n2)))
 	case "c":
 		t := dec1(f[1])
 		c, err := engine.VerifRenamedCopy(t, nil)
@@ -822,7 +822,7 @@ func runC11Variant(payload string) string {
 			nt = 1
 		}
 		vn := newVarNamer()
-		return fmt.Sprintf("%s ### nt=%d op=copy vars1=%s", c11Wire(compound("c", t, c), nil, vn.name), nt, bucket(len(n1)))
+		return fmt.Sprintf("%s ### nt=%d op=copy vars1=%s", c11Wire(compound("c", t, c), nil, vn.name), nt, bucket_c11(len(n1)))
 	}
 	panic("c11.variant: bad op")
 }
